@@ -42,6 +42,18 @@ def _begin():
     COUNTERS["begin"] += 1
     _UUID_STATE[0] = 0
     JSONSHIM.reset()
+    # fresh in-memory stores: the stores are process-wide singletons and would otherwise
+    # carry graphs from one explored path into the next
+    try:
+        from fim.graph.networkx_property_graph import NetworkXGraphStorage
+        NetworkXGraphStorage.storage_instance = None
+    except Exception:
+        pass
+    try:
+        from fim.graph.networkx_property_graph_disjoint import NetworkXGraphStorageDisjoint
+        NetworkXGraphStorageDisjoint.storage_instance = None
+    except Exception:
+        pass
 
 
 # --------------------------------------------------------------------------- symbolic detection
